@@ -610,6 +610,118 @@ def nat_sort_wide(params, model):
             "detail": f"times {a['time'].tolist()} -> order of ids {got}, want [2, 1, 0]"}
 
 
+# ---------------------------------------------------------------------------- sort_by_time: the combined key fits int64
+DT_PAY = np.dtype([("time", np.int64), ("endtime", np.int64), ("channel", np.int16), ("pay", np.int64), ("id", np.int64)])
+DT_PAY_NOCH = np.dtype([("time", np.int64), ("endtime", np.int64), ("pay", np.int64), ("id", np.int64)])
+
+
+def sym_sort_key(channels):
+    """Whenever sort_by_time takes its fast path, (time - tmin) * (cmax + 1) + channel must fit int64 (the kernel computes
+    it in int64): proved at the call of the real kernel, for a symbolic time range up to 2^63 - 1 and a symbolic number
+    of channels."""
+    import strax
+    import strax.processing.general as g
+
+    dt = DT_CH if channels else DT_NOCH
+    a = arrays.make(dt, 3)
+    T = fresh_int("T", 6, 2**63 - 2)
+    C = fresh_int("C", 0, 32767) if channels else 0
+    tt, cc = [0, 5, T], [0, C, C]
+    for i in range(3):
+        a["time"][i], a["endtime"][i], a["id"][i] = tt[i], tt[i] + 1, i
+        if channels:
+            a["channel"][i] = cc[i]
+    real = g._sort_by_time_and_channel
+    seen = []
+
+    def spy(x, channel, mcp1, *aa, **kk):
+        seen.append(1)
+        key_max = (T - 0) * mcp1 + core.smax(channel[1], channel[2])
+        prove(key_max <= 2**63 - 1, "sort_key:fast path taken although the combined sort key exceeds int64")
+        return real(x, channel, mcp1, *aa, **kk)
+
+    g._sort_by_time_and_channel = spy
+    try:
+        out = strax.sort_by_time(a)
+    finally:
+        g._sort_by_time_and_channel = real
+    ids = [int(x) for x in out["id"]]
+    prove(ids == [0, 1, 2], f"sort_key:not ordered by time: {ids}")
+    return bool(seen)
+
+
+def nat_sort_key(params, model):
+    import strax
+
+    channels = params["channels"]
+    a = np.zeros(3, dtype=DT_CH if channels else DT_NOCH)
+    T, C = model["T"], (model.get("C", 0) or 0)
+    a["time"] = [0, 5, T]
+    a["endtime"] = a["time"] + 1
+    a["id"] = [0, 1, 2]
+    if channels:
+        a["channel"] = [0, C, C]
+    got = [int(x) for x in strax.sort_by_time(a)["id"]]
+    return {"ok": got == [0, 1, 2], "label": "sort_key:sorted input comes back out of order",
+            "detail": f"times [0, 5, {T}] channels [0, {C}, {C}] -> order of ids {got}, want [0, 1, 2]"}
+
+
+# ---------------------------------------------------------------------------- sort_by_time: field width, ties
+SORT_EDGES = {
+    # name: (channel dtype or None, times, channels, payload)
+    "int16_edge": (np.int16, [7, 7, 7], [32767, 5, -1], [0, 0, 0]),
+    "uint8_full": (np.uint8, [30, 20, 10], [0, 7, 255], [0, 0, 0]),
+    "uint16_full": (np.uint16, [30, 20, 10], [0, 7, 65535], [0, 0, 0]),
+    "ties_far_row": (np.int16, [0, 0, 0, 2**50], [5, 5, 5, 9999], [9, 3, 7, 0]),
+    "ties_ch32767": (np.int16, [0, 0, 0, 1000], [5, 5, 5, 32767], [9, 3, 7, 0]),
+    "ties_nochannel": (None, [0, 0, 0, 2**62 + 8], None, [9, 3, 7, 0]),
+    "ties_near": (np.int16, [0, 0, 0, 1000], [5, 5, 5, 6], [9, 3, 7, 0]),
+}
+
+
+def _edge_array(case, off, obj):
+    cdt, times, chans, pay = SORT_EDGES[case]
+    fields = [("time", np.int64), ("endtime", np.int64)] + ([("channel", cdt)] if cdt else []) + [("pay", np.int64), ("id", np.int64)]
+    dt = np.dtype(fields)
+    n = len(times)
+    a = arrays.make(dt, n) if obj else np.zeros(n, dtype=dt)
+    for i in range(n):
+        a["time"][i], a["endtime"][i], a["pay"][i], a["id"][i] = times[i] + off, times[i] + off + 1, pay[i], i
+        if cdt:
+            a["channel"][i] = chans[i]
+    return a, times, chans
+
+
+def _edge_want(times, chans):
+    n = len(times)
+    return sorted(range(n), key=lambda i: (times[i], chans[i] if chans else 0, i))
+
+
+def sym_sort_edge(case):
+    """concrete channel values at the edge of the channel field's type / tied rows with a payload in descending order,
+    symbolic common time offset: ordered by (time, channel), ties in input order.  Field-width wrap-around exists only
+    natively: the native replay of the path witnesses decides."""
+    import strax
+
+    off = fresh_int("off", 0, 2**40)
+    a, times, chans = _edge_array(case, off, True)
+    ids = [int(x) for x in strax.sort_by_time(a)["id"]]
+    want = _edge_want(times, chans)
+    prove(ids == want, f"sort_edge:{case}: order {ids}, want {want} (by time, channel, then input position)")
+    return ids
+
+
+def nat_sort_edge(params, model):
+    import strax
+
+    case = params["case"]
+    a, times, chans = _edge_array(case, model.get("off", 0) or 0, False)
+    ids = [int(x) for x in strax.sort_by_time(a)["id"]]
+    want = _edge_want(times, chans)
+    return {"ok": ids == want, "label": f"sort_edge:{case}: not ordered by (time, channel, input position)",
+            "detail": f"channel dtype {SORT_EDGES[case][0]}, times {times}, channels {chans}: order {ids}, want {want}"}
+
+
 OBLIGATIONS = [
     Ob("contain", sym_contain, _g_contain, nat_contain, setup=_setup,
        doc="fully_contained_in == first container with c.t<=t and e<=c.e, else -1"),
@@ -638,6 +750,10 @@ OBLIGATIONS = [
        nat_sort, setup=_setup, doc="sort_by_time: permutation, ordered by (time, channel), stable"),
     Ob("sort_wide", sym_sort_wide, lambda tier: [dict(channels=False), dict(channels=True)], nat_sort_wide, setup=_setup,
        witnesses=2, doc="sort_by_time with a time range > 2^53 ns and records 1 ns apart, decided natively"),
+    Ob("sort_key", sym_sort_key, lambda tier: [dict(channels=False), dict(channels=True)], nat_sort_key, setup=_setup,
+       witnesses=2, doc="fast path of sort_by_time only when (time range) * (channels) + channel fits int64"),
+    Ob("sort_edge", sym_sort_edge, lambda tier: [dict(case=c) for c in SORT_EDGES], nat_sort_edge, setup=_setup,
+       witnesses=1, doc="channel values at the edge of the field type; tied rows on both paths keep their input order"),
     Ob("endtime", sym_endtime, lambda tier: [dict(region="narrow"), dict(region="wide")], nat_endtime, setup=_setup,
        witnesses=2, doc="endtime == time + length*dt, decided natively per region (product below / above 2^31)"),
     Ob("twin_contain", sym_twin_contain, lambda tier: [dict(nt=2, nc=2)], None, setup=_setup, expect_cex=True),
@@ -645,6 +761,13 @@ OBLIGATIONS = [
 
 
 MUTANTS = [
+    dict(name="sort guard by float division (original defect F-C17c)", file="strax/processing/general.py", only="sort_key",
+         old="    max_time_difference = (int(np.iinfo(np.int64).max) - 10) // max_channel_plus_one - 1",
+         new="    max_time_difference = (np.iinfo(np.int64).max - 10) / max_channel_plus_one"),
+    dict(name="sort key in the channel field's own type (original defect F-C17d)", file="strax/processing/general.py", only="sort_edge",
+         old='        channel = x["channel"].astype(np.int64)', new='        channel = x["channel"].copy()'),
+    dict(name="slow path sorts with order= (original defect F-C17e)", file="strax/processing/general.py", only="sort_edge",
+         old='        x = x[np.lexsort((channel, x["time"]))]', new='        x = np.sort(x, kind="mergesort", order=("time", "channel"))'),
     dict(name="original F-C17b: float sort key for data without a channel field", file="strax/processing/general.py", only="sort_wide",
          old="        channel = np.ones(len(x), dtype=np.int64)", new="        channel = np.ones(len(x))"),
     dict(name="original F-C17: endtime multiplies length by dt in int32", file="strax/processing/general.py", only="endtime",
